@@ -19,9 +19,9 @@ import (
 // written once in the whole module names the value stored there.
 
 var (
-	boundMethod map[*ssa.Function]*ssa.Function       // bound-method wrapper → method
-	boundSites  map[*ssa.Function][]*ssa.MakeClosure  // method → sites (in the module) where it is bound
-	fieldStores map[*types.Var][]*ssa.Store           // struct field → stores into it, module-wide
+	boundMethod map[*ssa.Function]*ssa.Function      // bound-method wrapper → method
+	boundSites  map[*ssa.Function][]*ssa.MakeClosure // method → sites (in the module) where it is bound
+	fieldStores map[*types.Var][]*ssa.Store          // struct field → stores into it, module-wide
 )
 
 func (c *Ctx) indexBoundMethods() {
